@@ -77,7 +77,7 @@ def main(tier, seed, replay=None):
     w = make_scratch()
     try:
         per = 5000 if tier == "quick" else 25000
-        res, distinct = inproc.run_shards(rep, "c18", seed, per, [w.repo, "300"], R.budget(tier, 20, 200), "C18")
+        res, distinct = inproc.run_shards(rep, "c18", seed, per, [w.repo, "300"] + flags, R.budget(tier, 20, 200), "C18")
         sigs = set(range(distinct))
         differing = {}
         classified = []
@@ -138,6 +138,35 @@ def main(tier, seed, replay=None):
             expected = al[-1][1].split()[0]
             if a["resolved_command"] and a["resolved_command"] != expected:
                 rep.direct_violation("C18/alias-resolution-differs", dict(argv=a["argv"], git_ai=a["resolved_command"], git_final=expected, expansions=al))
+        # (b2) the alias tokenizer against git's own split of the same value (the proxy hands git the expansion, finding D41, so a
+        # tokenization difference changes what git runs)
+        import shlex
+        toks = []
+        for r in res:
+            toks.extend(r.get("alias_tokens") or [])
+        rng.shuffle(toks)
+        seen_vals = set()
+        for a in toks:
+            if a["value"] in seen_vals or len(seen_vals) >= (120 if tier == "quick" else 1500):
+                continue
+            seen_vals.add(a["value"])
+            env = dict(w.env(), GIT_TRACE="1")
+            p = subprocess.run([REAL_GIT, "-c", "alias.zz=" + a["value"], "zz"], cwd=w.repo, env=env, stdout=subprocess.PIPE, stderr=subprocess.PIPE, timeout=60, stdin=subprocess.DEVNULL)
+            err = p.stderr.decode("utf-8", "replace")
+            m = re.search(r"trace: alias expansion: zz => (.*)", err)
+            rep.counters["alias_tokenizations_compared"] += 1
+            if m:
+                try:
+                    expected = shlex.split(m.group(1))
+                except ValueError:
+                    continue
+                if a["tokens"] != expected:
+                    rep.direct_violation("C18/alias-tokens-differ", dict(value=a["value"], git_ai=a["tokens"], git=expected))
+            elif "bad alias" in err or "unclosed quote" in err or "cmdline ends with" in err:
+                if a["tokens"] is not None:
+                    rep.direct_violation("C18/alias-tokens-differ", dict(value=a["value"], git_ai=a["tokens"], git="rejected: " + err.strip()[-120:]))
+            if len(rep.violations) >= 6:
+                break
         # (c) CLI level through the recording stand-in
         from ..twin import Twin
         t = Twin("C18cli", seed, 0, hooks_kind="none")
